@@ -10,6 +10,11 @@
    * principals_with / non_whitelisted_principals keep only items that are `str`                     -> strings
    * PolicyDocument._statement_as_list, _is_statement_effect_allow (`Effect.lower() == "allow"`),
      allowed_actions_with, allowed_principals_with, non_whitelisted_allowed_principals, get_allowed_actions.
+   * get_resource_list    : Resource then NotResource; str -> one item, list -> its items (function-object
+                            members kept)                                                              -> resource_list
+     resources_with(pattern), get_action_list(include_action, include_not_action)      -> resources_with, action_list_of
+   * PolicyDocument.statements_with(pattern) (NOT gated on the Effect), get_iam_actions(difference)
+                                                    -> statements_with, iam_actions, iam_actions_difference
 
    str.capitalize()/lower() are modelled on ASCII (upper_cp / lower_cp of Base/Str.v); cased non-ASCII
    letters are outside the generated alphabet (none of them lower-cases or title-cases into a letter of
@@ -30,6 +35,9 @@ Definition K_Principal : str := [80;114;105;110;99;105;112;97;108]%N. (* "Princi
 Definition K_NotPrincipal : str := [78;111;116;80;114;105;110;99;105;112;97;108]%N. (* "NotPrincipal" *)
 Definition K_Action : str := [65;99;116;105;111;110]%N. (* "Action" *)
 Definition K_NotAction : str := [78;111;116;65;99;116;105;111;110]%N. (* "NotAction" *)
+Definition K_Resource : str := [82;101;115;111;117;114;99;101]%N. (* "Resource" *)
+Definition K_NotResource : str := [78;111;116;82;101;115;111;117;114;99;101]%N. (* "NotResource" *)
+Definition K_iam_colon : str := [105;97;109;58]%N. (* "iam:" *)
 Definition K_Sid : str := [83;105;100]%N. (* "Sid" *)
 Definition K_Statement : str := [83;116;97;116;101;109;101;110;116]%N. (* "Statement" *)
 
@@ -66,7 +74,11 @@ Definition is_allow (e : effect) : bool := str_eqb (lower (name e)) K_allow_lc.
    class on every run) is proved equal to this list in Policy/PrincipalTable.v *)
 Definition PRINCIPAL_FIELDS : list str := [K_AWS; K_CanonicalUser; K_Federated; K_Service].
 
-(* value of one field of a Principal object, or an Action/NotAction element: str -> appended, list -> extended *)
+(* value of one field of a Principal object, or an Action / NotAction / Resource / NotResource element as
+   get_action_list / get_resource_list read it: `isinstance(x, List)` -> extended, `isinstance(x, (str, dict))`
+   -> appended.  A function object that is the WHOLE element is stored by model_validate as a FunctionDict (a
+   pydantic model, not a `dict`), so for a validated statement neither test holds and it contributes nothing;
+   function objects that are MEMBERS of a list are kept by `extend`. *)
 Definition field_items (v : value) : list value :=
   match v with
   | VStr _ => [v]
@@ -89,7 +101,9 @@ Record stmt := {
   principal : value;
   not_principal : value;
   action : value;
-  not_action : value
+  not_action : value;
+  resource : value;
+  not_resource : value
 }.
 
 (* Statement.get_principal_list *)
@@ -111,6 +125,15 @@ Definition non_whitelisted (wl : list str) (st : stmt) : list str :=
 Definition action_list (st : stmt) : list value := field_items (action st) ++ field_items (not_action st).
 Definition actions_with (m : str -> bool) (st : stmt) : list str := filter m (strings (action_list st)).
 
+(* Statement.get_action_list(include_action, include_not_action) *)
+Definition action_list_of (include_action include_not_action : bool) (st : stmt) : list value :=
+  (if include_action then field_items (action st) else []) ++
+  (if include_not_action then field_items (not_action st) else []).
+
+(* Statement.get_resource_list / resources_with(pattern) *)
+Definition resource_list (st : stmt) : list value := field_items (resource st) ++ field_items (not_resource st).
+Definition resources_with (m : str -> bool) (st : stmt) : list str := filter m (strings (resource_list st)).
+
 (* ------------------------------------------------------------------------------------------ *)
 (* Policy document queries (over the list given by _statement_as_list) *)
 
@@ -121,6 +144,20 @@ Definition nonempty {A} (l : list A) : bool := match l with [] => false | _ => t
 (* PolicyDocument.allowed_actions_with(pattern): the statements themselves, in document order *)
 Definition allowed_actions_with (m : str -> bool) (l : list stmt) : list stmt :=
   filter (fun st => nonempty (actions_with m st) && is_allow (effect_of st)) l.
+
+(* PolicyDocument.statements_with(pattern): the statements (in document order) with at least one matching
+   resource.  No Effect gate: Deny statements are reported like Allow ones. *)
+Definition statements_with (m : str -> bool) (l : list stmt) : list stmt :=
+  filter (fun st => nonempty (resources_with m st)) l.
+
+(* the positions (0-based, in the document) of the statements that statements_with returns *)
+Fixpoint positions_from {A} (f : A -> bool) (i : nat) (l : list A) : list nat :=
+  match l with
+  | [] => []
+  | x :: r => (if f x then [i] else []) ++ positions_from f (S i) r
+  end.
+Definition statements_with_positions (m : str -> bool) (l : list stmt) : list nat :=
+  positions_from (fun st => nonempty (resources_with m st)) 0 l.
 
 (* PolicyDocument.allowed_principals_with(pattern): list(set(..)); the model returns sorted(set(..)) *)
 Definition allowed_principals_with (m : str -> bool) (l : list stmt) : list str :=
@@ -135,6 +172,17 @@ Definition non_whitelisted_allowed_principals (wl : list str) (l : list stmt) : 
 Section Expanded.
   Variable expanded : stmt -> list str.
   Definition allowed_actions (l : list stmt) : list str := flat_map expanded (allowed l).
+
+  (* PolicyDocument.get_iam_actions(): sorted(set(a for every statement (Allow or Deny) for a in its expansion
+     if a.startswith("iam:"))) *)
+  Definition iam_actions (l : list stmt) : list str :=
+    sort_dedup (filter (starts_with K_iam_colon) (flat_map expanded l)).
+
+  (* PolicyDocument.get_iam_actions(difference=True): sorted(set(a for a in CLOUDFORMATION_ACTIONS
+     if a.lower().startswith("iam:")) - those) *)
+  Definition iam_actions_difference (cat : list str) (l : list stmt) : list str :=
+    let given := iam_actions l in   (* computed once, not once per catalogue entry *)
+    sort_dedup (filter (fun a => starts_with K_iam_colon (lower a) && negb (mem_str a given)) cat).
 End Expanded.
 
 (* ------------------------------------------------------------------------------------------ *)
@@ -151,7 +199,8 @@ Definition parse_stmt (v : value) : res stmt :=
           e <- effect_norm s ;;
           Ok {| sid := get K_Sid d; effect_of := e;
                 principal := get K_Principal d; not_principal := get K_NotPrincipal d;
-                action := get K_Action d; not_action := get K_NotAction d |}
+                action := get K_Action d; not_action := get K_NotAction d;
+                resource := get K_Resource d; not_resource := get K_NotResource d |}
       | Some _ => Err EUndefined      (* non-literal Effect: outside the property *)
       | None => Err EValidation       (* Effect is a required field *)
       end
@@ -208,7 +257,14 @@ Definition wf_principal (v : value) : bool :=
   | VDict d => forallb (fun kv => mem_str (fst kv) PRINCIPAL_FIELDS && wf_field (snd kv)) d
   | _ => false
   end.
-Definition STMT_KEYS : list str := [K_Sid; K_Effect; K_Principal; K_NotPrincipal; K_Action; K_NotAction].
+(* Resource / NotResource: as Action, and also a function object as the whole element *)
+Definition wf_resource (v : value) : bool :=
+  match v with
+  | VDict [(_, _)] => true
+  | _ => wf_field v
+  end.
+Definition STMT_KEYS : list str :=
+  [K_Sid; K_Effect; K_Principal; K_NotPrincipal; K_Action; K_NotAction; K_Resource; K_NotResource].
 Definition wf_stmt_raw (v : value) : bool :=
   match v with
   | VDict d =>
@@ -216,7 +272,8 @@ Definition wf_stmt_raw (v : value) : bool :=
       match lookup K_Effect d with Some (VStr _) => true | Some _ => false | None => true end &&
       match get K_Sid d with VNull => true | VStr _ => true | _ => false end &&
       wf_principal (get K_Principal d) && wf_principal (get K_NotPrincipal d) &&
-      wf_field (get K_Action d) && wf_field (get K_NotAction d)
+      wf_field (get K_Action d) && wf_field (get K_NotAction d) &&
+      wf_resource (get K_Resource d) && wf_resource (get K_NotResource d)
   | _ => false
   end.
 Definition wf_doc_raw (v : value) : bool :=
